@@ -252,4 +252,70 @@ theorem listStacks_notags (verArg : Str) (all : List (List Decl)) (rest : List (
             · exact Or.inl (Or.inr ⟨h, hp⟩)
             · exact Or.inr ⟨h, hp⟩
 
+/-! ## `findProduct(name, expr)` and the VRO entries `version`, `versionExpr` -/
+
+/-- the preferred-tag selection returns one of the products it was given -/
+theorem selectPreferred_mem (stacks : List (List Decl)) (ms : List (Nat × Str)) (pref : List Str) (p : Nat × Str)
+    (h : selectPreferred stacks ms pref = .ok (some p)) : p ∈ ms := by
+  induction pref with
+  | nil => simp [selectPreferred] at h
+  | cons t ts ih =>
+    simp only [selectPreferred] at h
+    split at h
+    · simp at h
+    · split at h
+      · cases hl : latest (ms.map (·.2)) with
+        | error e => simp [hl] at h
+        | ok o =>
+          cases o with
+          | none => simp only [hl] at h; exact ih h
+          | some k =>
+            simp only [hl, Except.ok.injEq] at h
+            exact List.mem_of_getElem? h
+      · cases hf : ms.find? (fun p => carries stacks p t) with
+        | none => simp only [hf] at h; exact ih h
+        | some q =>
+          simp only [hf, Except.ok.injEq, Option.some.injEq] at h
+          subst h
+          exact List.mem_of_find?_eq_some hf
+
+theorem exactLookup_spec (v : Str) (rest : List (List Decl)) : ∀ (i : Nat),
+    (∀ j w, exactLookup v i rest = some (j, w) → w = v ∧ i ≤ j ∧ ∃ st, rest[j - i]? = some st ∧ (∃ d ∈ st, d.ver = v) ∧
+        ∀ k st', k < j - i → rest[k]? = some st' → ∀ d ∈ st', d.ver ≠ v) ∧
+    (exactLookup v i rest = none → ∀ st ∈ rest, ∀ d ∈ st, d.ver ≠ v) := by
+  induction rest with
+  | nil => intro i; simp [exactLookup]
+  | cons st rest ih =>
+    intro i
+    simp only [exactLookup]
+    by_cases hst : st.any (fun d => d.ver == v) = true
+    · simp only [hst, if_true]
+      refine ⟨?_, by simp⟩
+      intro j w h
+      simp only [Option.some.injEq, Prod.mk.injEq] at h
+      obtain ⟨rfl, rfl⟩ := h
+      obtain ⟨d, hd, hdv⟩ := List.any_eq_true.mp hst
+      exact ⟨rfl, Nat.le_refl _, st, by simp, ⟨d, hd, by simpa using hdv⟩, by intro k st' hk; omega⟩
+    · simp only [hst, Bool.false_eq_true, if_false]
+      have hno : ∀ d ∈ st, d.ver ≠ v := by
+        intro d hd e
+        exact hst (List.any_eq_true.mpr ⟨d, hd, by simp [e]⟩)
+      obtain ⟨ih1, ih2⟩ := ih (i + 1)
+      refine ⟨?_, ?_⟩
+      · intro j w h
+        obtain ⟨hw, hle, st2, hget, hdecl, hfirst⟩ := ih1 j w h
+        refine ⟨hw, by omega, st2, ?_, hdecl, ?_⟩
+        · have : j - i = (j - (i + 1)) + 1 := by omega
+          rw [this]; simpa using hget
+        · intro k st' hk hk'
+          cases k with
+          | zero => simp only [List.getElem?_cons_zero, Option.some.injEq] at hk'; subst hk'; exact hno
+          | succ k =>
+            simp only [List.getElem?_cons_succ] at hk'
+            exact hfirst k st' (by omega) hk'
+      · intro h s hs
+        rcases List.mem_cons.mp hs with rfl | hs
+        · exact hno
+        · exact ih2 h s hs
+
 end EupsModel.VersionCmp
